@@ -504,6 +504,9 @@ func c12Corpus() []*c12Case {
 		// A12
 		win(&c12Case{Endpoint: "tempo/trace", Method: "GET", Class: "corpus A12 empty payload",
 			Path: "/api/traces/0123456789abcdef0123456789abcdef", Answers: []c12Answer{{Shape: "spans-empty-otlp", N: 1, Seed: 1}}}),
+		// a stored OTLP attribute without a value: the JSON rendering dereferences it inside the handler's receive loop
+		win(&c12Case{Endpoint: "tempo/trace", Method: "GET", Class: "corpus attribute without value",
+			Path: "/api/traces/0123456789abcdef0123456789abcdef", Answers: []c12Answer{{Shape: "spans-otlp-novalue", N: 3, Seed: 1}}}),
 		// A35
 		win(&c12Case{Endpoint: "tempo/trace", Method: "GET", Class: "corpus A35 long id",
 			Path: "/api/traces/" + strings.Repeat("a", 66), Answers: one(1)}),
